@@ -30,7 +30,7 @@ func (c *Ctx) LemmaObligations(names []string) []*Obligation {
 		}
 		fi := &FuncInfo{Key: "lemma:" + lem.Name, Pkg: pkgInfo}
 		fx := &FuncExec{ctx: c, reg: c.reg, pkg: pkgInfo, info: pkgInfo.TypesInfo, fi: fi,
-			varSort: map[string]string{}, varType: map[string]types.Type{}, counters: map[string]int{}, boxed: map[*types.Var]bool{},
+			varSort: map[string]string{}, varType: map[string]types.Type{}, counters: map[string]int{}, boxed: map[*types.Var]bool{}, addrTaken: map[*types.Var]bool{},
 			captured: map[*types.Var]bool{}, used: map[string]bool{}, uncontr: map[string]bool{}, writes: map[string]bool{}, ghostVar: map[string]string{}}
 		st := NewState()
 		old := NewState()
@@ -149,7 +149,7 @@ func (c *Ctx) InstallAxioms() error {
 		}
 		fi := &FuncInfo{Key: "axiom:" + ax.Name, Pkg: pkgInfo}
 		fx := &FuncExec{ctx: c, reg: c.reg, pkg: pkgInfo, info: pkgInfo.TypesInfo, fi: fi,
-			varSort: map[string]string{}, varType: map[string]types.Type{}, counters: map[string]int{}, boxed: map[*types.Var]bool{},
+			varSort: map[string]string{}, varType: map[string]types.Type{}, counters: map[string]int{}, boxed: map[*types.Var]bool{}, addrTaken: map[*types.Var]bool{},
 			captured: map[*types.Var]bool{}, used: map[string]bool{}, uncontr: map[string]bool{}, writes: map[string]bool{}, ghostVar: map[string]string{}}
 		var err error
 		func() {
